@@ -182,7 +182,31 @@ def r_push_expected_nonblocking(spec, data):
     return bad
 
 
-RECIPES = {"push_ts_input": r_push_ts_input, "set_delay": r_set_delay, "push_expected_nonblocking": r_push_expected_nonblocking}
+def r_policy_vs_actor(spec, data):
+    import jax, jax.numpy as jnp
+    from rex.actor_critic import Actor
+    from rex.ppo import Policy
+    n_out, n_obs = 2, 3
+    actor = Actor(num_output_units=n_out, num_hidden_units=5, num_hidden_layers=spec["depth"], hidden_activation=spec["act"], output_activation="gaussian", state_independent_std=spec["sis"])
+    obs = jnp.array([0.3, -1.2, 2.5])
+    params = actor.init(jax.random.PRNGKey(1), obs)["params"]
+    pi = actor.apply({"params": params}, obs)
+    pol = Policy(act_scaling=None, obs_scaling=None, model={"actor": params}, hidden_activation=spec["act"], output_activation="gaussian", state_independent_std=spec["sis"])
+    try:
+        a = pol.apply_actor(obs, rng=jax.random.PRNGKey(7) if spec["rng"] else None)
+    except Exception as e:
+        print("exported policy raised", type(e).__name__, e)
+        return True
+    if spec["rng"]:
+        want = pi.sample(seed=jax.random.PRNGKey(7))
+    else:
+        want = pi.loc if hasattr(pi, "loc") else pi.mean()
+    print("actor :", want)
+    print("policy:", a)
+    return a.shape != want.shape or not bool(jnp.allclose(a, want, atol=1e-6))
+
+
+RECIPES = {"policy_vs_actor": r_policy_vs_actor, "push_ts_input": r_push_ts_input, "set_delay": r_set_delay, "push_expected_nonblocking": r_push_expected_nonblocking}
 
 
 def main():
